@@ -21,8 +21,8 @@ maintenance flag set, a session operation issued by the client (`RimeCreateSessi
 `RimeFindSession`, `RimeGetContext` — everything that goes through `Service::CreateSession` /
 `GetSession`) is refused: it reports 0 and changes no session. -/
 theorem excl (s : State) (hw : s.working = true) (hf : s.flag = true) (k : OpKind) :
-    sessionOp s k = (s.live, 0) := by
-  simp [sessionOp, State.maintMode, hw, hf]
+    sessionOp s k = (s.sessions, 0) := by
+  simp [sessionOp, State.disabled, State.maintMode, hw, hf]
 
 /-- **E, as a step of the transition system.**  From a reachable state with a running
 maintenance worker, the client's next call being a session operation, the call returns 0
@@ -31,12 +31,12 @@ theorem excl_step {script : List Op} {s s' : State} (_h : Reach (init script) s)
     (hw : s.working = true) (hf : s.flag = true) (hb : s.cpc = .boundary)
     {op : Op} {rest : List Op} (hs : s.script = op :: rest)
     (hop : op = .create ∨ op = .find ∨ op = .ctx) (hstep : step s .client = some s') :
-    s'.live = s.live ∧ ∃ k, s'.log = s.log ++ [.ret k 0] := by
+    s'.sessions = s.sessions ∧ s'.live = s.live ∧ ∃ k, s'.log = s.log ++ [.ret k 0] := by
   have hw' : s.worker.working = true := hw
   rcases hop with rfl | rfl | rfl <;>
-    simp [step, clientStep, hb, hs, beginOp, sessionOp, State.finishOp, State.maintMode,
+    simp [step, clientStep, hb, hs, beginOp, sessionOp, State.finishOp, State.disabled, State.maintMode,
       State.working, hw', hf] at hstep <;>
-    subst hstep <;> simp
+    subst hstep <;> simp [State.live]
 
 /-- **E for maintenance scripts.**  When the client only uses the API's maintenance calls (no
 `StartWork(false)` recovery path), the maintenance flag is set whenever a worker is running — at
@@ -44,18 +44,98 @@ every position of `Run()`, in particular while any scheduled task executes — s
 operation is refused for as long as the work thread has not finished. -/
 theorem excl_while_worker_runs {script : List Op} (hm : MaintOnly script) {s : State}
     (h : Reach (init script) s) (hw : s.working = true) (k : OpKind) :
-    s.maintMode = true ∧ sessionOp s k = (s.live, 0) := by
+    s.maintMode = true ∧ sessionOp s k = (s.sessions, 0) := by
   have hf : s.flag = true := (invM_reach hm h).2.2.1 hw
   exact ⟨by simp [State.maintMode, hw, hf], excl s hw hf k⟩
 
+/-- **E for ANY script, by the mode the work thread was launched with.**  From the launch of a work
+thread by a maintenance call (`StartMaintenance()`: start_maintenance, sync_user_data) until that
+thread's successful last queue check (`FinishWork()`), whatever the client calls in between —
+including `Deployer::StartWork(false)` of the user-dictionary recovery — `maintenance_mode_` stays
+true, `is_maintenance_mode` answers true and every session operation is refused: `StartWork` stores
+its mode only when `working_` is false, and `working_` is true for exactly that stretch. -/
+theorem excl_maintenance_thread {script : List Op} {s : State} (h : Reach (init script) s)
+    (hs : s.settled = false) (hm : s.wmode = true) (k : OpKind) :
+    s.flag = true ∧ s.maintMode = true ∧ sessionOp s k = (s.sessions, 0) := by
+  have hf : s.flag = true := by rw [invF_reach h hs]; exact hm
+  have hw : s.working = true := by
+    unfold State.settled at hs
+    unfold State.working Worker.working
+    rcases hw' : s.worker with _ | ⟨pc, f⟩ | _ <;> simp_all
+  exact ⟨hf, by simp [State.maintMode, hw, hf], excl s hw hf k⟩
+
+/-- **`sync_user_data` drops the sessions before it hands anything to the deployer**: its first
+segment clears `sessions_`; the `ScheduleTask`s and the launch of the maintenance thread come
+after, so the maintenance call itself never operates on sessions once its thread runs. -/
+theorem sync_drops_sessions_first {s s' : State} (hb : s.cpc = .boundary) {os : List Bool} {rest : List Op}
+    (hs : s.script = .sync os :: rest) (hstep : step s .client = some s') :
+    s'.sessions = [] ∧ s'.worker = s.worker ∧ s'.queue = s.queue := by
+  simp [step, clientStep, hb, hs, beginOp] at hstep
+  subst hstep; simp
+
 /-- **E, second half: the service accepts sessions again once the worker has finished.**  With no
-worker running (future ready or joined), whatever the flag, `create_session` yields a session
-and `find_session` / `get_context` succeed iff a session exists. -/
-theorem accepts_after_finish (s : State) (hw : s.working = false) :
-    sessionOp s .create = (s.live + 1, 1) ∧
-    sessionOp s .find = (s.live, if s.live = 0 then 0 else 1) ∧
+worker running (future ready or joined), whatever the flag, in a started service (`started_`, a
+state component added with `RimeFinalize` / `RimeInitialize`; see `accepts_after_finish_reach` for the
+form without that hypothesis) `create_session` yields a session and `find_session` / `get_context`
+succeed iff a session exists. -/
+theorem accepts_after_finish (s : State) (hst : s.started = true) (hw : s.working = false) :
+    sessionOp s .create = (0 :: s.sessions, 1) ∧
+    (sessionOp s .find).1.length = s.live ∧ (sessionOp s .find).2 = (if s.live = 0 then 0 else 1) ∧
     s.maintMode = false := by
-  simp [sessionOp, State.maintMode, hw]
+  cases hs : s.sessions <;> simp [sessionOp, State.disabled, State.maintMode, State.live, hw, hst, hs]
+
+/-- **The service stays started unless it is finalized.**  In every state reachable by a script
+without `RimeFinalize`, `started_` is true. -/
+theorem started_unless_finalized {script : List Op} (hn : NoFinalize script) {s : State}
+    (h : Reach (init script) s) : s.started = true := (invS_reach hn h).2
+
+/-- **E, second half, over all schedules** (any script that never finalizes — in particular every
+script over the calls of the property's quantifier): in every reachable state without a running
+worker sessions are accepted. -/
+theorem accepts_after_finish_reach {script : List Op} (hn : NoFinalize script) {s : State}
+    (h : Reach (init script) s) (hw : s.working = false) :
+    sessionOp s .create = (0 :: s.sessions, 1) ∧
+    (sessionOp s .find).1.length = s.live ∧ (sessionOp s .find).2 = (if s.live = 0 then 0 else 1) ∧
+    s.maintMode = false :=
+  accepts_after_finish s (started_unless_finalized hn h) hw
+
+/-- **A stopped service refuses every session operation** (between `RimeFinalize` and the next
+`RimeInitialize`), and `RimeInitialize` alone makes it accept again when no maintenance runs. -/
+theorem refused_while_stopped (s : State) (hst : s.started = false) (k : OpKind) :
+    sessionOp s k = (s.sessions, 0) := by
+  simp [sessionOp, State.disabled, hst]
+
+/-- **`RimeFinalize` never returns while a work thread is running**: its step is enabled only when no
+worker is running, and afterwards there is no worker, no session, and the service is stopped. -/
+theorem finalize_waits {s s' : State} (hb : s.cpc = .boundary) {rest : List Op}
+    (hs : s.script = .finalize :: rest) (hstep : step s .client = some s') :
+    s.working = false ∧ s'.worker = .idle ∧ s'.live = 0 ∧ s'.started = false := by
+  cases hw : s.working with
+  | true =>
+    have hw' : s.worker.working = true := hw
+    simp [step, clientStep, hb, hs, beginOp, State.finishOp, State.working, hw'] at hstep
+  | false =>
+    have hw' : s.worker.working = false := hw
+    simp [step, clientStep, hb, hs, beginOp, State.finishOp, State.working, hw'] at hstep
+    subst hstep; simp [State.live]
+
+/-- **Tasks run synchronously through `Deployer::RunTask`** (`RimeRunTask`, `RimeDeployWorkspace`,
+`RimeDeploySchema`, `RimeDeployConfigFile`, `RimePrebuildAllSchemas`) never touch the queue, the worker,
+the flags or the sessions: the call only reports the conjunction of the task results. -/
+theorem run_sync_leaves_queue {s s' : State} (hb : s.cpc = .boundary) {k : OpKind} {os : List Bool}
+    {rest : List Op} (hs : s.script = .runSync k os :: rest) (hstep : step s .client = some s') :
+    s'.queue = s.queue ∧ s'.worker = s.worker ∧ s'.flag = s.flag ∧ s'.wflag = s.wflag ∧
+    s'.live = s.live ∧ s'.log = s.log ++ [.ret k (if os.all id then 1 else 0)] := by
+  simp [step, clientStep, hb, hs, beginOp, State.finishOp] at hstep
+  subst hstep; simp [State.live]
+
+/-- **A refused session operation leaves no trace on the sessions**: while a maintenance worker
+runs, `find_session` / `get_context` do not refresh the activity stamp of the session either, so
+which sessions `RimeCleanupStaleSessions` erases after the maintenance does not depend on the
+refused calls. -/
+theorem refused_keeps_stale {s : State} (hw : s.working = true) (hf : s.flag = true) (k : OpKind) :
+    (sessionOp s k).1.filter (fun age => age ≤ lifeSpan) = s.sessions.filter (fun age => age ≤ lifeSpan) := by
+  rw [excl s hw hf k]
 
 /-- **T, first half: no task runs twice, tasks run in the order they were scheduled.**  In every
 reachable state the scheduled tasks are exactly: those that ran (in order), then the one being
@@ -127,12 +207,13 @@ theorem no_lost_task_idle {script : List Op} {s : State}
     rcases hw' : s.worker with _ | ⟨pc, f⟩ | _ <;> simp_all
   exact ⟨hq, by rw [h1, hq, hin]; simp⟩
 
-/-- **N (notification grammar).**  In every reachable state the sequence of ("deploy", ·)
-notifications is a prefix of a word of `(start (success|failure)+)*`, and whenever no worker is
-running it IS such a word: every `start` has been followed by at least one result and nothing
-follows the last result. -/
-theorem notes_grammar {script : List Op} {s : State} (h : Reach (init script) s) :
-    (∃ rest, Lang (s.notes ++ rest)) ∧ (s.working = false → Lang s.notes) := by
+/-- **N (notification grammar) for the notifications SENT** (`Service::Notify(0, "deploy", ·)` calls of
+the work threads, whether or not a handler is installed at that moment; any script).  In every
+reachable state the sequence is a prefix of a word of `(start (success|failure)+)*`, and whenever no
+worker is running it IS such a word: every `start` has been followed by at least one result and
+nothing follows the last result. -/
+theorem sent_grammar {script : List Op} {s : State} (h : Reach (init script) s) :
+    (∃ rest, Lang (s.sent ++ rest)) ∧ (s.working = false → Lang s.sent) := by
   have hg := (inv_reach h).2.1
   unfold InvG at hg
   unfold State.working Worker.working
@@ -146,6 +227,20 @@ theorem notes_grammar {script : List Op} {s : State} (h : Reach (init script) s)
     · exact ⟨⟨[], by simpa using hg.2⟩, by simp⟩
     · exact ⟨⟨[], by simpa using hg.2⟩, by simp⟩
   · simp [hw] at hg; exact ⟨⟨[], by simpa using hg⟩, fun _ => hg⟩
+
+/-- **With a handler installed throughout, every notification sent is heard**, in order. -/
+theorem heard_all {script : List Op} (hk : KeepsHandler script) {s : State}
+    (h : Reach (init script) s) : s.notes = s.sent := (invH_reach hk h).2.2
+
+/-- **N (notification grammar) as seen by the handler.**  For every script that never removes the
+handler (`RimeSetNotificationHandler(NULL, …)` was added to the alphabet later; every script of the
+earlier alphabet qualifies), in every reachable state the sequence of ("deploy", ·) notifications
+the handler has received is a prefix of a word of `(start (success|failure)+)*`, and whenever no
+worker is running it IS such a word. -/
+theorem notes_grammar {script : List Op} (hk : KeepsHandler script) {s : State}
+    (h : Reach (init script) s) :
+    (∃ rest, Lang (s.notes ++ rest)) ∧ (s.working = false → Lang s.notes) := by
+  rw [heard_all hk h]; exact sent_grammar h
 
 /-- **No deadlock.**  In every state in which the client has not finished its script, some thread
 can take a step: the client only ever waits (`join_maintenance_thread`, the `JoinWorkThread()`
@@ -211,9 +306,21 @@ schedule prefix, continued to the end on the new model, reaches a boundary state
 over in which six tasks were scheduled — and all six ran -/
 example : ∃ s, MaintOnly Old.oldScript ∧ Reach (init Old.oldScript) s ∧ s.atBoundary = true ∧
     s.maintenanceOver = true ∧ s.scheduled.length = 6 ∧ s.ran.map (·.id) = [0, 1, 2, 3, 4, 5] :=
-  ⟨(runSchedule Old.oldScript Old.oldSchedule).1, by intro op hop o; revert hop; simp [Old.oldScript]; rintro (h | h | h) <;> simp [h],
+  ⟨(runSchedule Old.oldScript Old.oldSchedule).1, by intro op hop; revert hop; simp [Old.oldScript]; rintro (h | h | h) <;> simp [h, Op.nonMaint],
     reach_of_runStrict Reach.refl (l := (runSchedule Old.oldScript Old.oldSchedule).2) (by decide),
     by decide, by decide, by decide, by decide⟩
+
+/-- a stopped service is reachable, refuses, and accepts again after `RimeInitialize` -/
+example : ∃ s, Reach (init [.create, .finalize, .create, .initialize, .create]) s ∧
+    s.log = [.ret .create 1, .ret .finalize 2, .ret .create 0, .ret .initialize 2, .ret .create 1] :=
+  ⟨_, reach_of_runStrict Reach.refl (l := List.replicate 5 .client) rfl, by decide⟩
+
+/-- a notification sent while no handler is installed is reachable (so `sent` ≠ `notes` in general) -/
+example : ∃ s, Reach (init [.clearHandler, .sync [true, true, true]]) s ∧ s.notes = [] ∧
+    s.sent = [.start, .success] :=
+  ⟨(runSchedule [.clearHandler, .sync [true, true, true]] []).1,
+    reach_of_runStrict Reach.refl (l := (runSchedule [.clearHandler, .sync [true, true, true]] []).2) (by decide),
+    by decide, by decide⟩
 
 /-- `Lang` is inhabited by a non-trivial word with a late second result -/
 example : Lang [.start, .success, .failure, .start, .failure] := by
